@@ -523,6 +523,10 @@ class Ctx:
             print("  |%s| = %d" % (k, len(v)))
         for s, (k, n) in known_hits.items():
             print("KNOWN-FINDING: property=%s %s [%s; seen %d times]" % (self.prop, k.get("what", ""), s, n))
+        if fresh and os.environ.get("VERIF_DUMP"):
+            for v in fresh:
+                if v["sig"] is None or os.environ.get("VERIF_DUMP") == "all":
+                    print("DUMP %s %s" % (v["kind"], json.dumps(jsonable(v["detail"]), ensure_ascii=False)[:1200]))
         if fresh:
             rdir = os.path.join(os.environ.get("VERIF_REPLAY_DIR") or os.path.join(VERIF, "replays"), self.prop)
             os.makedirs(rdir, exist_ok=True)
